@@ -59,7 +59,8 @@ func c11I64() []int64 {
 
 var c11I64s = c11I64()
 
-var c11TextAlphabet = []byte{0x00, 'a', 0x7F, 0x80, 0xC2, 0xE2, 0x82, 0xAC, 0xF0, 0xFF, 0xED, 0xA0}
+// (EF BF BD is U+FFFD, a valid character that a rune-based validity shortcut confuses with a decoding error)
+var c11TextAlphabet = []byte{0x00, 'a', 0x7F, 0x80, 0xC2, 0xE2, 0x82, 0xAC, 0xF0, 0xFF, 0xED, 0xA0, 0xEF, 0xBF, 0xBD}
 
 func pattern(n int, seed int64) []byte {
 	b := make([]byte, n)
@@ -392,7 +393,7 @@ func init() {
 		{"int(-25)", func(e *cbor.Encoder) error { return e.EncodeInt(-25) }, refcbor.EncInt(-25), false},
 		{"bytes(nil)", func(e *cbor.Encoder) error { return e.EncodeByteString(nil) }, refcbor.EncBytes(nil), false},
 		{"bytes(24)", func(e *cbor.Encoder) error { return e.EncodeByteString(make([]byte, 24)) }, refcbor.EncBytes(make([]byte, 24)), false},
-		{"text(é)", func(e *cbor.Encoder) error { return e.EncodeTextString("é") }, refcbor.EncText("é"), false},
+		{"text(é\ufffd)", func(e *cbor.Encoder) error { return e.EncodeTextString("é\ufffd") }, refcbor.EncText("é\ufffd"), false},
 		{"text(bad)", func(e *cbor.Encoder) error { return e.EncodeTextString("\xff") }, nil, true},
 		{"array(2)", func(e *cbor.Encoder) error { return e.EncodeArrayHeader(2) }, refcbor.AppendHead(nil, refcbor.Array, 2), false},
 		{"bool(true)", func(e *cbor.Encoder) error { return e.EncodeBool(true) }, []byte{0xf5}, false},
@@ -466,7 +467,7 @@ func init() {
 	register(&mc.Property{
 		ID:    "C11",
 		Level: "model_checking",
-		Rule:  "choice-tree enumeration of encoder inputs: every uint64/int64 within +-64 of each head boundary and every 2^k+-1; byte/text strings of every length 0..300 and around 65536; all text contents of length <=3 over a 12-byte UTF-8 boundary alphabet; every subset of <=4 keys from a pool of 10 mixed-type keys in every permutation plus every duplicated key, three value styles; all encoder call sequences up to depth 3 (quick) / 4 (thorough) over an 11-call menu. A case is non-trivial when it produced output that was compared byte-for-byte with the independent canonical encoder (or was a refused input); distinct by output/input hash.",
+		Rule:  "choice-tree enumeration of encoder inputs: every uint64/int64 within +-64 of each head boundary and every 2^k+-1; byte/text strings of every length 0..300 and around 65536; all text contents of length <=3 over a 15-byte UTF-8 boundary alphabet (incl. U+FFFD); every subset of <=4 keys from a pool of 10 mixed-type keys in every permutation plus every duplicated key, three value styles; all encoder call sequences up to depth 3 (quick) / 4 (thorough) over an 11-call menu. A case is non-trivial when it produced output that was compared byte-for-byte with the independent canonical encoder (or was a refused input); distinct by output/input hash.",
 		Assumptions: []string{
 			"refcbor (independent canonical encoder/decoder written from RFC 8949) is correct",
 			"values between the enumerated boundary windows behave like their neighbours in the same head-size class (small-scope hypothesis)",
